@@ -388,8 +388,13 @@ class symeig_torchfcn(torch.autograd.Function):
             gevecsM = -gevecsA * evals.unsqueeze(-2)
 
             # the contribution from the parallel elements
-            gevecsM_par = (-0.5 * torch.einsum("...ae,...ae->...e", grad_evecs, evecs.conj())
-                           ).unsqueeze(-2) * evecs  # (*BAM, na, neig)
+            # (for degenerate eigenvalues, the whole degenerate block contributes)
+            xtg = torch.matmul(evecs.transpose(-2, -1).conj(), grad_evecs)  # (*BAM, neig, neig)
+            if idx_degen is None:
+                xtg = torch.diag_embed(torch.diagonal(xtg, dim1=-2, dim2=-1))
+            else:
+                xtg = xtg * idx_degen
+            gevecsM_par = -0.5 * torch.matmul(evecs, xtg)  # (*BAM, na, neig)
 
             gaccumM = gevalsM + gevecsM + gevecsM_par
             grad_mparams = torch.autograd.grad(
